@@ -190,5 +190,22 @@ CHECKS["C14"] = {
     "level_note": "Private TMPDIR per process, so spill files cannot be confused with anything else.",
 }
 
+CHECKS["C15"] = {
+    "level": "fault_enumeration",
+    "rule": "sequences of 1-6 requests on one service, each with a fault drawn from 16 classes placed at the raw target (no listener, "
+            "accept-and-close, close/reset after reading the request, garbage, partial status line, partial headers then close / stall / "
+            "reset, silence, header block at target-timeout -50/-1/=/+1/+50 ms, full headers then close short of Content-Length / reset / "
+            "partial chunk / no body byte), interleaved with healthy requests, connections kept alive or not, with and without "
+            "request/response buffering and custom error pages (with and without a page for the status); oracle: well-formed 502/504 "
+            "with the right page at exactly the fault's instant (504 exactly one target-timeout after the target had the request), or a "
+            "visibly incomplete response; afterwards a healthy request succeeds, the in-flight table is empty and a pause's drain takes "
+            "0 virtual time. Non-trivial = a fault placed after >=1 response byte of a complete header block, or a header block within "
+            "1 ms of the target timeout. Distinct by plan hash.",
+    "layers": [L("TestVF_C15", 1000, 12000)],
+    "technique": "fault injection driven by property-based testing (rapid) on a virtual clock: generated fault sequences at a scripted raw target, exact-instant oracle",
+    "level_text": "Enumeration of the listed fault points x configurations by random sampling with a fixed seed; every class appears hundreds of times per quick run (see labels).",
+    "level_note": "The in-memory network stands in for TCP (refused / EOF / RST are modelled as errors of the same class); a dial that hangs is outside the listed classes (the transport has no dial timeout).",
+}
+
 ALL_IDS = ["C%02d" % i for i in range(1, 21)]
 NOT_APPLICABLE = {pid: "check not built yet (work in progress; see DESIGN.md section 8 for the order of work)" for pid in ALL_IDS if pid not in CHECKS}
